@@ -238,6 +238,10 @@ impl Transport for LocalTransport {
             self.create_dir_all(parent).await?;
         }
 
+        // Never write through a symlink at the destination path (its target may be
+        // the source file itself or anything outside the destination): replace it
+        remove_if_symlink(dest).await?;
+
         // Copy file with checksum verification using spawn_blocking
         let source = source.to_path_buf();
         let dest = dest.to_path_buf();
@@ -332,6 +336,9 @@ impl Transport for LocalTransport {
     }
 
     async fn sync_file_with_delta(&self, source: &Path, dest: &Path) -> Result<TransferResult> {
+        // Never read or write through a symlink at the destination path: replace it
+        remove_if_symlink(dest).await?;
+
         // Check if destination exists
         if !self.exists(dest).await? {
             tracing::debug!("Destination doesn't exist, using full copy");
@@ -884,6 +891,13 @@ impl Transport for LocalTransport {
                 .map_err(SyncError::Io)?;
         }
 
+        // Replace a stale file or link at the link path (without following it)
+        if let Ok(meta) = tokio::fs::symlink_metadata(dest).await {
+            if !meta.is_dir() {
+                tokio::fs::remove_file(dest).await.map_err(SyncError::Io)?;
+            }
+        }
+
         // Create the symbolic link
         #[cfg(unix)]
         {
@@ -918,6 +932,20 @@ impl Transport for LocalTransport {
         );
         Ok(())
     }
+
+    async fn read_link(&self, path: &Path) -> Result<Option<std::path::PathBuf>> {
+        Ok(tokio::fs::read_link(path).await.ok())
+    }
+}
+
+/// Remove `path` if (and only if) it is a symbolic link
+async fn remove_if_symlink(path: &Path) -> Result<()> {
+    if let Ok(meta) = tokio::fs::symlink_metadata(path).await {
+        if meta.file_type().is_symlink() {
+            tokio::fs::remove_file(path).await.map_err(SyncError::Io)?;
+        }
+    }
+    Ok(())
 }
 
 #[cfg(test)]
